@@ -346,7 +346,7 @@ class AbsExec:
     # ------------------------------------------------------------------ expressions
     def ev(self, e: ast.AST, env: dict[str, Any]) -> Any:
         self.steps += 1
-        if self.steps > 200_000:
+        if self.steps > getattr(self, "max_steps", 200_000):
             raise AnalysisError(f"{self.qual}: abstract interpretation does not terminate")
         if isinstance(e, ast.Constant):
             return e.value
@@ -739,6 +739,12 @@ class AbsExec:
             else:
                 args.append(self.ev(a, env))
         kw = {k.arg: self.ev(k.value, env) for k in e.keywords if k.arg is not None}
+        for k in e.keywords:
+            if k.arg is None:  # **mapping
+                m_ = self.ev(k.value, env)
+                if not isinstance(m_, dict):
+                    raise self.unknown(e, "** of a value that is not a dictionary")
+                kw.update(m_)
         if isinstance(f, Closure):
             return self.call_closure(f, args, kw, e)
         if callable(f) and not isinstance(f, tuple):
@@ -778,7 +784,17 @@ class AbsExec:
                 env[n] = self.ev(d, c.env)
         for n, v in zip(names, args):
             env[n] = v
-        env.update(kw)
+        if a.vararg is not None:
+            env[a.vararg.arg] = tuple(args[len(names):])
+        if a.kwarg is not None:
+            named_ = set(names) | {x.arg for x in a.kwonlyargs}
+            env[a.kwarg.arg] = {k: v for k, v in kw.items() if k not in named_}
+            env.update({k: v for k, v in kw.items() if k in named_})
+        else:
+            env.update(kw)
+        for x_, d_ in zip(a.kwonlyargs, a.kw_defaults):
+            if x_.arg not in env and d_ is not None:
+                env[x_.arg] = self.ev(d_, c.env)
         if isinstance(node, ast.Lambda):
             return self.ev(node.body, env)
         if _is_generator(node):
@@ -800,6 +816,11 @@ class AbsExec:
         return None
 
     def builtin(self, name: str, args: list[Any], e: ast.AST, env: dict[str, Any] | None = None) -> Any:
+        h_ = self.hooks.get(f"builtin:{name}")
+        if h_ is not None:
+            r_ = h_(self, e, args)
+            if r_ is not NotImplemented:
+                return r_
         if args and isinstance(args[0], TokenStream):
             if name == "enumerate":
                 return TokenStream(enumerated=True)
